@@ -231,7 +231,7 @@ fn gen_peel_frame(rng: &mut Rng) -> String {
             } else {
                 rng.pick(&["node", "lane", "\"node\"", "\"la\\u006ee\"", "nod", "x", "Node", "\"no\\de\""]).to_string()
             };
-            let value: String = match if unterminated { 11 } else { rng.below(16) } {
+            let value: String = match if unterminated { 40 } else { rng.below(48) } {
                 0 => "".into(),
                 1 => {
                     // everything up to the next quote is swallowed: later values stay in the safe pool
@@ -242,10 +242,10 @@ fn gen_peel_frame(rng: &mut Rng) -> String {
                 3 => "\"\\u12\"".into(),
                 4 => "\"\\ud800\"".into(),
                 5 => "\"\\uD7FFx\\uuu0041\"".into(),
-                6 => "true".into(),
-                7 => "\"\"".into(),
-                8 => "\"a\\\\b\\\"c\\n\\t\\r\\b\\f\\u001f\"".into(),
-                9 | 10 => {
+                6 | 7 => "true".into(),
+                8 | 9 => "\"\"".into(),
+                10..=12 => "\"a\\\\b\\\"c\\n\\t\\r\\b\\f\\u001f\"".into(),
+                13..=24 => {
                     // what the writer would produce for an arbitrary name
                     let s = gen_name(rng);
                     match real_encode("link", &s, Some("l"), None) {
@@ -324,7 +324,8 @@ fn gen_fuzz_frame(rng: &mut Rng) -> String {
 }
 
 fn gen_pure_case(rng: &mut Rng, t: &mut Trace) {
-    for _ in 0..rng.range(3, 8) {
+    // the ops are independent (stateless components): short cases, so that one finding does not mask the next
+    for _ in 0..rng.range(1, 3) {
         let op = if rng.chance(3, 5) { gen_rt(rng) } else { format!("peel {}", hs(&gen_peel_frame(rng))) };
         let o = exec_pure(&op);
         t.op(op, o);
@@ -332,7 +333,7 @@ fn gen_pure_case(rng: &mut Rng, t: &mut Trace) {
 }
 
 fn gen_fuzz_case(rng: &mut Rng, t: &mut Trace) {
-    for _ in 0..rng.range(3, 8) {
+    for _ in 0..rng.range(1, 3) {
         let op = format!("peel {}", hs(&gen_fuzz_frame(rng)));
         let o = exec_pure(&op);
         t.op(op, o);
